@@ -1407,7 +1407,9 @@ fn strace_events(path: &Path, root: &str) -> Vec<String> {
             "utimensat" => {
                 if quoted.is_empty() { fdpath(first_arg).map(|p| ("futimens".to_string(), p)) } else { quoted.first().map(|q| ("utimens".to_string(), abs(first_arg, q))) }
             }
-            "link" | "symlink" | "linkat" | "symlinkat" => quoted.last().map(|q| (name.trim_end_matches("at").to_string(), abs(first_arg, q))),
+            // the interposer logs the EXISTING name for link (first path) and the NEW name for symlink (last path)
+            "link" | "linkat" => quoted.first().map(|q| ("link".to_string(), abs(first_arg, q))),
+            "symlink" | "symlinkat" => quoted.last().map(|q| ("symlink".to_string(), abs(first_arg, q))),
             _ => None,
         };
         if let Some((k, p)) = ev {
